@@ -4,6 +4,7 @@ import Gen
 import Proofs.ConnData
 import Proofs.Shared
 import Proofs.Listener
+import Proofs.ConnWrite
 /-!
   C15 — faults on one connection stay on that connection.
   Faults: a handler panic, undecodable input, an abrupt disconnect / read error on a
@@ -106,11 +107,38 @@ theorem C15_listener_perm (s : LS) (h : s.running = true) :
     s.step .acceptPerm = some { s with running := false, lclosed := true } := by
   simp [LS.step, h]
 
+/-- Writes stay on their connection too: whatever is written through connection `k`'s `Conn` -
+    by a handler or by the application, while it lives or long after a fault has ended it, with
+    any number of connections opened and ended in between - reaches transport `k` or none; no
+    transport ever holds a message written through another connection. (Each connection owns its
+    buffered writer: `Gen.connBufferSources`.) -/
+theorem C15_write_contained (es : List OwEv) (j : Nat) (c : OwConn)
+    (h : ((({} : OwSys).run false es).1).conns[j]? = some c) : ∀ p ∈ c.wire, p.1 = j :=
+  (WInvOwn_run es {} WInvOwn_init).own j c h
+
+/-- ... and a write through a connection that has ended reaches nothing at all -/
+theorem C15_late_write_fails (S : OwSys) (h : WInvOwn S) (k id : Nat) (c : OwConn)
+    (hk : S.conns[k]? = some c) (hd : c.alive = false) : S.step false (.write k id) = (S, .err) := by
+  have hw := h.wr k c hk
+  have hkl : k < S.conns.length := by
+    by_cases hl : k < S.conns.length
+    · exact hl
+    · rw [List.getElem?_eq_none (by omega)] at hk; cases hk
+  have ht : S.target.getD c.writer 0 = k := by rw [hw]; exact h.tg k (by rw [h.len]; exact hkl)
+  simp only [OwSys.step, hk, ht, hd, Bool.false_eq_true, if_false]
+
+/-- were writers recycled between connections, a write on an ended connection could land on a
+    later, healthy one (the model distinguishes the two sources) -/
+theorem C15_write_needs_own_writer :
+    (((({} : OwSys).run true [.openConn, .die 0, .openConn, .write 0 7]).1).conns.map (·.wire)) = [[], [(0, 7)]] := by
+  decide
+
 /-- structural facts regenerated from server.go -/
 theorem C15_gen : Gen.serveDeferRecover = true ∧ Gen.serveDeferClose = true ∧ Gen.serveDeferNotify = true ∧
     Gen.muxServeRLockDeferred = true ∧ Gen.acceptRetryCond = "(ok&&ne.Temporary())" ∧
     Gen.acceptResetsDelay = true ∧ Gen.acceptSpawnsServe = true ∧ Gen.serveDefersListenerClose = true ∧
-    Gen.capErrorReports = 1 := by decide
+    Gen.capErrorReports = 1 ∧
+    Gen.connBufferSources = ["c.buf=bufio.NewReadWriter(bufio.NewReader(&c.sr),bufio.NewWriter(rwc))"] := by decide
 
 /-- non-vacuity: a handler panic on connection 0 while connection 1 is mid-message; connection 1
     completes and dispatches its message afterwards -/
